@@ -271,3 +271,107 @@ Print Assumptions C17_foreign_continuation.
 Print Assumptions C17_twin_is_the_tree.
 Print Assumptions C17_twin_Good.
 Print Assumptions C17_foreign_reference.
+
+(* ===================================================================================================
+   ADDED (T23): ARBITRARY further filesystem calls on an opened foreign archive written BELOW A NAMED TOP DIRECTORY
+   (archive  top/ top/d/ top/d/f ...; the rebuilt index stores the root "top" and the names "top/d/f"; the documented
+   composition afero.BasePathFs(stfs, "top") - C17_named_base_path - hands STFS the names "top/...").
+   Under the cached root "top" getSanitizedPath returns every name unchanged, so the named instance runs the same index
+   operations as the writer twin of the tree on the RENAMED names ([psi top]: "/" -> "top", "/d/f" -> "top/d/f"): the
+   relation [T23Rel.R top] (same rows up to the renaming, tombstones included; same tape positions and contents) is a
+   simulation for every filesystem-level call ([T23Main.Sim], Proofs/T23*.v).  Hence, for every history whose names are
+   "top" or "top/q" with q a cleaned relative path ([named_call]) that never removes or renames onto "top"
+   ([named_call_ok]), header-block counts >= 1: every call returns on the named instance what the correspondingly renamed
+   call returns on the twin - and on the instance opened over the "./" or "/" archive of the same tree (T20) -, the walk
+   from "top" shows after every call the entries the twin shows from "/" under the renamed paths, contents included, and
+   what is written survives a rebuild exactly (rows of the rebuild of the final tape = rows of the final index).  With
+   [T20Good.sizes_bounded] the T02 reference semantics applies from the tree.  Plain configuration.
+   Excluded and shown by compiled counterexamples (Proofs/T23Counter.v): names that are not below "top" ("other",
+   "/other") or leave it through ".." ("top/../n") succeed but store an entry BESIDE the tree that no walk from "top"
+   shows.
+   =================================================================================================== *)
+From STFS Require T23Rel T23Main.
+
+(* the opened named-top archive and the twin of the tree are in the simulation *)
+Theorem C17_named_top_simulates_twin : forall top, okc top -> forall c st t, plain c -> 0 < c_rs c -> wf_style st -> style_root st = [] -> wf t ->
+  T23Main.Sim top c (twin c st t) (opened c (archive_of (Named top) t)).
+Proof. exact T23Main.T23_named_sim. Qed.
+
+(* one call on any pair of states in the simulation (e.g. after a history) *)
+Theorem C17_named_top_step : forall top, okc top -> forall c, plain c -> 0 < c_rs c -> c_readonly c = false ->
+  forall sa sr k e, T23Main.Sim top c sa sr ->
+  fs_call k = true -> call_ok k = true -> T23Main.clean_call k = true -> hb_ok (k, e) = true ->
+  snd (step c (with_env sr e) (T23Rel.ren_call top k)) = snd (step c (with_env sa e) k) /\
+  T23Main.Sim top c (fst (step c (with_env sa e) k)) (fst (step c (with_env sr e) (T23Rel.ren_call top k))) /\
+  T23Ops.envq (fst (step c (with_env sa e) k)) (fst (step c (with_env sr e) (T23Rel.ren_call top k))).
+Proof. exact T23Main.T23_step_sim. Qed.
+
+(* related instances show the same entries: the named one walked from "top", the twin from "/" (any configuration) *)
+Theorem C17_named_top_view : forall top, okc top -> forall c sa sr, T23Main.Sim top c sa sr ->
+  view_at c sr top = map (T23Rel.ren_entry top) (view c sa).
+Proof. exact T23Main.T23_view_sim'. Qed.
+
+(* followed by arbitrary further filesystem calls, the history given as the named instance receives it *)
+Theorem C17_named_top_continuation : forall c top st t hN, plain c -> 0 < c_rs c -> c_readonly c = false ->
+  okc top -> wf_style st -> style_root st = [] -> wf t ->
+  forallb (fun ke => T23Main.named_call top (fst ke)) hN = true ->
+  forallb (fun ke => T23Main.named_call_ok top (fst ke)) hN = true ->
+  forallb hb_ok hN = true ->
+  let h := T23Main.unren_hist top hN in
+  let sr := opened c (archive_of (Named top) t) in
+  let sa := twin c st t in
+  let sr' := final c sr hN in
+  let sa' := final c sa h in
+  T23Rel.ren_hist top h = hN /\
+  forallb (fun ke => fs_call (fst ke)) h = true /\ forallb (fun ke => call_ok (fst ke)) h = true /\ forallb hb_ok h = true /\
+  map ob_out (run c sr hN) = map ob_out (run c sa h) /\
+  map ob_blocks (run c sr hN) = map ob_blocks (run c sa h) /\
+  Forall2 (fun xa xr => T23Main.Sim top c xa xr /\ view_at c xr top = map (T23Rel.ren_entry top) (view c xa))
+          (T23Main.states c sa h) (T23Main.states c sr hN) /\
+  view_at c sr' top = map (T23Rel.ren_entry top) (view c sa') /\
+  Inv true c sa' /\ T23Main.Sim top c sa' sr' /\
+  (exists p, rebuild c (tp sr') = (p, Ok tt) /\ rows p = rows (db sr') /\ T23Rel.rows_rel top (rows (db sa')) (rows (db sr'))) /\
+  forall rootp q1 q2 k,
+    let s2 := {| tp := tp sr'; db := p_empty; hbq := q1; encq := q2; clk := k |} in
+    snd (fs_initialize c s2 rootp) = OOk /\ tp (fst (fs_initialize c s2 rootp)) = tp sr' /\
+    view_at c (fst (fs_initialize c s2 rootp)) top = view_at c sr' top.
+Proof. exact T23Main.T23_named_continuation. Qed.
+
+(* every name "top" / "top/q" (q of okc components) is admitted by [named_call] *)
+Theorem C17_named_top_names : forall top q, okc top -> Forall okc q -> T23Main.named_name top (join_slash (top :: q)) = true.
+Proof. exact T23Main.named_name_join. Qed.
+
+(* against the instance opened over the "./" or "/" archive of the same tree, each on its own spelling of the history *)
+Theorem C17_named_top_vs_foreign : forall c top st t hN, plain c -> 0 < c_rs c -> c_readonly c = false ->
+  okc top -> wf_style st -> style_root st = [] -> wf t ->
+  forallb (fun ke => T23Main.named_call top (fst ke)) hN = true ->
+  forallb (fun ke => T23Main.named_call_ok top (fst ke)) hN = true ->
+  forallb hb_ok hN = true ->
+  let h := T23Main.unren_hist top hN in
+  let sn := opened c (archive_of (Named top) t) in
+  let sf := opened c (archive_of st t) in
+  map ob_out (run c sn hN) = map ob_out (run c sf h) /\
+  map ob_blocks (run c sn hN) = map ob_blocks (run c sf h) /\
+  view_at c (final c sn hN) top = map (T23Rel.ren_entry top) (view c (final c sf h)).
+Proof. exact T23Main.T23_named_vs_foreign. Qed.
+
+(* against the T02 reference semantics started from the tree *)
+Theorem C17_named_top_reference : forall c top st t h, plain c -> 0 < c_rs c -> c_readonly c = false ->
+  okc top -> wf_style st -> style_root st = [] -> wf t -> T20Good.sizes_bounded t ->
+  let sn := opened c (archive_of (Named top) t) in
+  let sa := twin c st t in
+  T02Spec.ok_run c sa h ->
+  T02Ns.abs sa = T20Abs.namespace_of c t /\
+  T02Spec.conforms c sa h /\ T02Spec.Good true c (final c sa h) /\
+  map ob_out (run c sn (T23Rel.ren_hist top h)) = map ob_out (run c sa h) /\
+  view_at c (final c sn (T23Rel.ren_hist top h)) top = map (T23Rel.ren_entry top) (view c (final c sa h)) /\
+  T02Ns.abs (final c sn (T23Rel.ren_hist top h)) = map (fun e => (T23Rel.psi top (fst e), snd e)) (T02Ns.abs (final c sa h)).
+Proof. exact T23Main.T23_named_reference. Qed.
+
+Print Assumptions C17_named_top_simulates_twin.
+Print Assumptions C17_named_top_step.
+Print Assumptions C17_named_top_view.
+Print Assumptions C17_named_top_continuation.
+Print Assumptions C17_named_top_names.
+Print Assumptions C17_named_top_vs_foreign.
+Print Assumptions C17_named_top_reference.
